@@ -173,6 +173,10 @@ fn case(ctx: &WorkerCtx, seed: u64, n: u64) -> CaseOut {
             out.inconclusive = Some(format!("session pair stalled (not a completed session; liveness is C21's subject): {}", snap.json()));
             return out;
         }
+        End::Spin { snap, .. } => {
+            out.inconclusive = Some(format!("a session looped without awaiting (not a completed session; liveness is C21's subject): {}", snap.json()));
+            return out;
+        }
         End::Watchdog { snap } => {
             out.inconclusive = Some(format!("watchdog fired: {}", snap.json()));
             return out;
